@@ -263,10 +263,12 @@ func (o *snapshotter) Prepare(ctx context.Context, key, parent string, opts ...s
 			log.G(lCtx).WithField(remoteSnapshotLogKey, prepareFailed).
 				WithError(err).Warn("failed to prepare remote snapshot")
 		} else {
+			verifCrashPoint("prepare.mounted")
 			base.Labels[remoteLabel] = remoteLabelVal // Mark this snapshot as remote
 			err := o.commit(ctx, true, target, key, append(opts, snapshots.WithLabels(base.Labels))...)
 			if err == nil || errdefs.IsAlreadyExists(err) {
 				// count also AlreadyExists as "success"
+				verifCrashPoint("prepare.targetcommitted")
 				log.G(lCtx).WithField(remoteSnapshotLogKey, prepareSucceeded).Debug("prepared remote snapshot")
 				return nil, fmt.Errorf("target snapshot %q: %w", target, errdefs.ErrAlreadyExists)
 			}
@@ -342,6 +344,7 @@ func (o *snapshotter) commit(ctx context.Context, isRemote bool, name, key strin
 		return fmt.Errorf("failed to commit snapshot: %w", err)
 	}
 
+	verifCrashPoint("commit.beforetx")
 	rollback = false
 	return t.Commit()
 }
@@ -380,6 +383,7 @@ func (o *snapshotter) Remove(ctx context.Context, key string) (err error) {
 		// key no longer available.
 		defer func() {
 			if err == nil {
+				verifCrashPoint("remove.txcommitted")
 				for _, dir := range removals {
 					if err := o.cleanupSnapshotDirectory(ctx, dir); err != nil {
 						log.G(ctx).WithError(err).WithField("path", dir).Warn("failed to remove directory")
@@ -500,9 +504,11 @@ func (o *snapshotter) cleanupSnapshotDirectory(ctx context.Context, dir string) 
 	if err := o.fs.Unmount(ctx, mp); err != nil {
 		log.G(ctx).WithError(err).WithField("dir", mp).Debug("failed to unmount")
 	}
+	verifCrashPoint("cleanupdir.unmounted")
 	if err := os.RemoveAll(dir); err != nil {
 		return fmt.Errorf("failed to remove directory %q: %w", dir, err)
 	}
+	verifCrashPoint("cleanupdir.removed")
 	return nil
 }
 
@@ -537,6 +543,7 @@ func (o *snapshotter) createSnapshot(ctx context.Context, kind snapshots.Kind, k
 		}
 		return storage.Snapshot{}, fmt.Errorf("failed to create prepare snapshot dir: %w", err)
 	}
+	verifCrashPoint("create.tempdir")
 	rollback := true
 	defer func() {
 		if rollback {
@@ -550,6 +557,7 @@ func (o *snapshotter) createSnapshot(ctx context.Context, kind snapshots.Kind, k
 	if err != nil {
 		return storage.Snapshot{}, fmt.Errorf("failed to create snapshot: %w", err)
 	}
+	verifCrashPoint("create.txcreate")
 
 	if len(s.ParentIDs) > 0 {
 		st, err := os.Stat(o.upperPath(s.ParentIDs[0]))
@@ -572,11 +580,13 @@ func (o *snapshotter) createSnapshot(ctx context.Context, kind snapshots.Kind, k
 		return storage.Snapshot{}, fmt.Errorf("failed to rename: %w", err)
 	}
 	td = ""
+	verifCrashPoint("create.renamed")
 
 	rollback = false
 	if err = t.Commit(); err != nil {
 		return storage.Snapshot{}, fmt.Errorf("commit failed: %w", err)
 	}
+	verifCrashPoint("create.committed")
 
 	return s, nil
 }
@@ -680,6 +690,7 @@ func (o *snapshotter) Close() error {
 	if err := o.cleanup(ctx, cleanupCommitted); err != nil {
 		log.G(ctx).WithError(err).Warn("failed to cleanup")
 	}
+	verifCrashPoint("close.cleaned")
 
 	return o.ms.Close()
 }
@@ -785,6 +796,7 @@ func (o *snapshotter) restoreRemoteSnapshot(ctx context.Context) error {
 			if err := os.Mkdir(filepath.Join(o.root, "snapshots", id), 0700); err != nil && !os.IsExist(err) {
 				return err
 			}
+			verifCrashPoint("restore.mkdir")
 			if err := os.Mkdir(o.upperPath(id), 0755); err != nil && !os.IsExist(err) {
 				return err
 			}
@@ -803,6 +815,7 @@ func (o *snapshotter) restoreRemoteSnapshot(ctx context.Context) error {
 			}
 			return fmt.Errorf("failed to prepare remote snapshot: %s: %w", info.Name, err)
 		}
+		verifCrashPoint("restore.mounted")
 	}
 
 	return nil
